@@ -31,6 +31,15 @@ def carrier_doc(carrier, s, rnd):
         if "]]>" in v:
             return None
         return f'<svg><rect id="s" xy="2 3" wh="30 20"><![CDATA[{v}]]></rect></svg>'
+    if carrier == "mixed-content":
+        # character data and CDATA sections side by side: one text, in order
+        if "]]>" in v or len(v) < 2:
+            return None
+        k = 1 + rnd.randrange(len(v) - 1)
+        a, b = v[:k], v[k:]
+        if not a.strip() or not b.strip():
+            return None
+        return f'<svg><rect id="s" xy="2 3" wh="30 20">{textc.esc_text(a)}<![CDATA[{b}]]></rect></svg>'
     if carrier == "text-element":
         return f'<svg><text id="s" xy="2 3">{textc.esc_text(v)}</text></svg>'
     raise ValueError(carrier)
